@@ -698,3 +698,11 @@ pub fn holder_of(l: &Ledger, mint_key: &Pubkey) -> Option<(Pubkey, TokenAcct)> {
     }
     None
 }
+
+/// the tick record the swap path sees for `tick`: the slot of the canonical array (start = floor to 88 x spacing) at its PDA
+pub fn canonical_tick(l: &Ledger, whirlpool: &Pubkey, spacing: u16, tick: i32) -> Option<Tick> {
+    let start = crate::gen::ta_start(tick, spacing);
+    let ta = tick_array(l.data(&crate::ix::pda_tick_array(whirlpool, start))?).ok()?;
+    let off = (tick - start) / spacing as i32;
+    ta.ticks.get(off as usize).cloned()
+}
